@@ -22,6 +22,16 @@ PROPS['C20'] = dict(
     level_note='Assumed: regex tokenisation of SemVer strings and the cfg lexer (checked bounded against independent references); cargo_parse is proved for requirements of at most two comparators (all component values), longer lists are covered by the bounded layer only; lru_cache transparent.',
     not_decided=['api()/_api_of are outside the statement'],
 )
+PROPS['C13'] = dict(
+    modules=['specs.arglist', 'contracts.arglist'],
+    bounded=['bounded.arglist'],
+    level='proof',
+    design_ref='DESIGN.md §4 C13',
+    technique='deductive: data structure against an abstract view; VCs from the real AST of arglist.py with quantified set invariants, SMT-discharged; the step from the abstract view to the eager meaning (lemma L13) bounded-exhaustive on the spec functions',
+    level_text='Every mutating and reading method of CompilerArgs is proved, for all contents and all classification tables, to act as the corresponding list operation on the abstraction function view(container, pre, post, flag): flush_pre_post computes it (three loop invariants), += extends pre/post by the accepted split of the batch, the readers flush first. A method that forgets to flush, reorders, loses or invents an argument fails a named obligation.',
+    level_note='Assumed: _can_dedup/_should_prepend are pure functions of the argument (definitional abstraction can/prep); os.path.isabs uninterpreted; the compiler object opaque. Lemma L13 (view commutes with the statement-level eager meaning) is checked bounded-exhaustively, not proved. __len__, __eq__, __radd__ and extend_preserving_lflags are outside the contracts.',
+    not_decided=['__len__ (counts pending duplicates), __eq__ (does not flush the other operand), __radd__', 'CLikeCompilerArgs.to_native group insertion and -isystem filtering'],
+)
 
 # properties with no check yet or outside the technique, each with the reason
 NOT_APPLICABLE = {
